@@ -96,17 +96,29 @@ type blobDeco struct {
 
 func nblobsKV(p []sop.BlobsPayload[sop.KeyValuePair[sop.UUID, []byte]]) string {
 	n := 0
+	ids := ""
 	for _, x := range p {
 		n += len(x.Blobs)
+		for _, b := range x.Blobs {
+			if len(ids) < 120 {
+				ids += " " + b.Key.String()[4:13]
+			}
+		}
 	}
-	return fmt.Sprintf("%db", n)
+	return fmt.Sprintf("%db%s", n, ids)
 }
 func nblobsID(p []sop.BlobsPayload[sop.UUID]) string {
 	n := 0
+	ids := ""
 	for _, x := range p {
 		n += len(x.Blobs)
+		for _, b := range x.Blobs {
+			if len(ids) < 120 {
+				ids += " " + b.String()[4:13]
+			}
+		}
 	}
-	return fmt.Sprintf("%db", n)
+	return fmt.Sprintf("%db%s", n, ids)
 }
 func (d *blobDeco) GetOne(ctx context.Context, table string, id sop.UUID) ([]byte, error) {
 	s, a := d.t.enter("BlobStore", "GetOne", "")
